@@ -7,7 +7,7 @@ import json
 from typing import Any, Dict, List, Optional, Tuple
 
 from . import core, tlc
-from .surface import DIMENSIONS, print_doc, dec
+from .surface import DIMENSIONS, print_doc, print_doc_ex, dec
 
 GEN_CFG = '''CONSTANTS
   SeedLo = %d
@@ -162,12 +162,18 @@ def _exec_chunk(items):
     out = []
     for it in items:
         try:
-            text = it['text'] if it.get('text') is not None else print_doc(it['doc'], it['fseed'], it['pinned'], it.get('noise'))
+            exact = False
+            if it.get('text') is not None:
+                text = it['text']
+            else:
+                text, exact = print_doc_ex(it['doc'], it['fseed'], it['pinned'], it.get('noise'))
         except AssertionError as ex:
             out.append({'tid': it['tid'], 'skip': 'printer: %s' % ex})
             continue
         result, links, db = pj.parse_and_project(text, allow=it['allow'], links=it['want'] in ('links', 'selflinks'), via=it.get('via', 'str'))
-        rec = {'tid': it['tid'], 'doc': it['doc'], 'allow': it['allow'], 'want': it['want'],
+        # (C14) extra comments where nothing captures them: not even a comment attribute may change
+        want = 'model' if it['want'] == 'inert' and exact else it['want']
+        rec = {'tid': it['tid'], 'doc': it['doc'], 'allow': it['allow'], 'want': want,
                'result': result, 'links': links, 'obs': {'off': {'kind': 'none'}, 'same_dbml': True, 'same_sql': True,
                                                          'store': {'t': 0, 'c': 0, 'k': '', 'v': ''}, 'after': {'kind': 'none'}},
                '_text': text}
